@@ -96,23 +96,28 @@ Section Machine.
     | DFuel => (st, [], RxStuck, [])
     end.
 
-  (* readSelfContainedSegment:  for payloadReader.Len() > 0 { if abort = c.readFrame(payloadReader); abort { break } }
+  (* readSelfContainedSegment (client.go and server.go, the same text):
+         payloadReader := bytes.NewReader(incoming.Payload.UncompressedData)
+         for payloadReader.Len() > 0 { if abort = c.readFrame(payloadReader); abort { break } }
+     sc_more is the loop condition, literally: the loop goes on while ANY byte of the payload is unread.  It is NOT
+     "while more than a header's worth is unread": an envelope that is a bare 9-byte header with an empty body (OPTIONS,
+     READY) at the end of - or alone in - a self-contained segment is decoded like any other.
      fuel: every successful DecodeFrame consumes at least one byte of a well-formed payload; if a decoder returned
      without consuming, the Go loop would spin: RxStuck *)
-  Fixpoint read_sc (fuel : nat) (r : role) (st : conn) (p : list Z) : conn * list F * outcome :=
-    match p with
-    | [] => (st, [], RxOk)
-    | _ :: _ =>
-        match fuel with
-        | O => (st, [], RxStuck)
-        | S k =>
-            match read_frame r st p with
-            | (st1, fs, RxOk, rest) =>
-                match read_sc k r st1 rest with (st2, fs2, o2) => (st2, fs ++ fs2, o2) end
-            | (st1, fs, o, _) => (st1, fs, o)
-            end
-        end
-    end.
+  Definition sc_more (remaining : Z) : bool := 0 <? remaining.
+
+  Fixpoint read_sc (fuel : nat) (r : role) (st : conn) (p : list Z) {struct fuel} : conn * list F * outcome :=
+    if sc_more (zlen p) then
+      match fuel with
+      | O => (st, [], RxStuck)
+      | S k =>
+          match read_frame r st p with
+          | (st1, fs, RxOk, rest) =>
+              match read_sc k r st1 rest with (st2, fs2, o2) => (st2, fs ++ fs2, o2) end
+          | (st1, fs, o, _) => (st1, fs, o)
+          end
+      end
+    else (st, [], RxOk).
 
   (* addMultiSegmentPayload (as of /repo 46f0253).  Append the payload first.  If no target is known yet and at least
      FrameHeaderLengthV3AndHigher bytes have been accumulated, decode a frame header from the ACCUMULATED bytes (the
@@ -273,6 +278,14 @@ Section Machine.
   Definition calm (r : role) (nf : F) : Prop :=
     match r with
     | Client => fc_fatal fc nf = false /\ fc_switch fc nf = false
+    | Server => fc_startup fc nf = None
+    end.
+
+  (* ... of an end that is already in modern layout: maybeSwitchToModernLayout does nothing there, so a READY or an
+     AUTHENTICATE (READY answers REGISTER; it is a bare header with an empty body) is an ordinary frame for a client *)
+  Definition calm_modern (r : role) (nf : F) : Prop :=
+    match r with
+    | Client => fc_fatal fc nf = false
     | Server => fc_startup fc nf = None
     end.
 End Machine.
